@@ -1364,4 +1364,142 @@ theorem F5_repaired_witnesses :
     cleanPieces (splitImg (sanitizeBytes bSeeTag0)) = true ∧ cleanPieces (splitImg (sanitizeBytes bTag5)) = true ∧
     sanitizeBytes bLong = bLong ∧ sanitizeBytes bImg = bImg := by decide
 
+
+/-! ### the header template: exact form, each image once in the prompt bytes (round 7) -/
+
+
+
+
+def headerG (x : RMsg) : Bytes :=
+  if x.1 = Role.system then [] else [91] ++ (roleName x.1 ++ ([124] ++ (x.2 ++ ([93] ++ []))))
+
+/-- **Header messages template, exact form** -/
+theorem header_exact (tv : TVar) (msgs : List RMsg) (tools : ToolsV := {}) :
+    execute tv tHeader msgs tools =
+      .ok ((if (collate msgs).1.isEmpty then [] else [83, 60] ++ ((collate msgs).1 ++ ([62] ++ []))) ++
+        (collateMsgs msgs).flatMap headerG) := by
+  let root : Root := ⟨false, (collate msgs).1, [], [], collateMsgs msgs, tools⟩
+  have hf := fold_bodies_exact (execList root headerBody) headerG (collateMsgs msgs) []
+    (fun x _ => header_body root x)
+  have hm' : nodesMention Fld.messages tHeader = true := by decide
+  have hexec : execute tv tHeader msgs tools = execList root tHeader none := by
+    simp only [execute, hm', if_true]
+    rfl
+  rw [hexec, header_exec root rfl]
+  have hrest : (if root.msgs.isEmpty then execList root [] none
+       else root.msgs.foldl (fun (a : XOut) m => a.append (execList root headerBody (some m))) (XOut.ok [])) =
+       .ok ((collateMsgs msgs).flatMap headerG) := by
+    cases hne : (collateMsgs msgs).isEmpty with
+    | true =>
+      have hnil : collateMsgs msgs = [] := by cases h : collateMsgs msgs <;> simp_all
+      simp [root, hnil, execList]
+    | false =>
+      simp only [root, hne, Bool.false_eq_true, if_false]
+      simpa using hf
+  rw [hrest]
+  show (if (collate msgs).1.isEmpty then XOut.ok [] else XOut.ok ([83, 60] ++ ((collate msgs).1 ++ ([62] ++ [])))).append _ = _
+  cases hs : (collate msgs).1.isEmpty <;> simp [XOut.append]
+
+/-- the runner's scan of the header prompt of a conversation given as pieces: the tags of the system messages
+    (printed in the header), then the tags of the others -/
+theorem header_scan (tv : TVar) (l : List PMsg) (tools : ToolsV) (hclean : ∀ m ∈ l, cleanPieces m.2 = true) :
+    ∃ p, execute tv tHeader (l.map rp) tools = .ok p ∧
+      scanTags p 0 = ((l.filter isSysP).map (·.2)).flatMap tagsOf ++ l.flatMap (fun m => tagsOf (headerP m)) := by
+  refine ⟨_, header_exact tv (l.map rp) tools, ?_⟩
+  let sysP := joinP ((l.filter isSysP).map (·.2))
+  have hsys : (collate (l.map rp)).1 = renderPieces sysP := collate_system_pieces l
+  have hsysclean : cleanPieces sysP = true :=
+    joinP_clean _ (fun c hc => by
+      obtain ⟨m, hm, rfl⟩ := List.mem_map.mp hc
+      exact hclean m (List.mem_filter.mp hm).1)
+  have hbody : (collateMsgs (l.map rp)).flatMap headerG = renderPieces ((collateP l).flatMap headerP) := by
+    rw [collateMsgs_map_rp, List.flatMap_map, renderPieces_flatMap]
+    congr 1
+    funext x
+    exact (headerP_render x).symm
+  have hbclean : cleanPieces ((collateP l).flatMap headerP) = true :=
+    flatMap_clean headerP _ (fun x hx => headerP_clean x (collateP_clean l hclean x hx))
+  have hbtags : tagsOf ((collateP l).flatMap headerP) = l.flatMap (fun m => tagsOf (headerP m)) := by
+    rw [flatMap_tags]; exact collateP_tags_nonsys l
+  rw [hbody, hsys]
+  cases hs : (renderPieces sysP).isEmpty with
+  | true =>
+    have hnil : renderPieces sysP = [] := by cases h : renderPieces sysP <;> simp_all
+    have ht : tagsOf sysP = [] := tagsOf_of_render_nil sysP hnil
+    have hts : ((l.filter isSysP).map (·.2)).flatMap tagsOf = [] := by rw [← joinP_tags]; exact ht
+    simp only [if_true, List.nil_append, hts]
+    rw [scanTags_renderPieces _ hbclean, hbtags]
+  | false =>
+    have e : [83, 60] ++ (renderPieces sysP ++ ([62] ++ [])) ++ renderPieces ((collateP l).flatMap headerP)
+        = renderPieces ([Piece.lit [83, 60]] ++ sysP ++ [Piece.lit [62]] ++ (collateP l).flatMap headerP) := by
+      simp [renderPieces_append, renderPieces, renderPiece]
+    have hc : cleanPieces ([Piece.lit [83, 60]] ++ sysP ++ [Piece.lit [62]] ++ (collateP l).flatMap headerP) = true := by
+      simp only [cleanPieces_append, hsysclean, hbclean, Bool.and_true]
+      decide
+    simp only [Bool.false_eq_true, if_false]
+    rw [e, scanTags_renderPieces _ hc]
+    have hj : tagsOf sysP = ((l.filter isSysP).map (·.2)).flatMap tagsOf := joinP_tags _
+    simp only [tagsOf_append, hbtags, hj]
+    simp [tagsOf]
+
+/-- **Each image exactly once in the PROMPT BYTES, header messages template** (partial: guard `cleanPieces`; finding
+    F5 otherwise): every index `k < #images` is matched exactly once by the runner's regexp, no other number is,
+    every match resolves. -/
+theorem prompt_tags_header_partial {tv : TVar} {mode : Nat} {tf : Option Nat} {p : Bytes} {tools : ToolsV}
+    (h : chatPromptT cfg tv tHeader mode msgs tf tools = .ok q n sys ret imgs p)
+    (hv : cfg.fixed = true)
+    (hclean : ∀ m ∈ msgs, cleanPieces m.content = true)
+    (hno : ∀ m ∈ msgs, ∀ k, countTag k m.content = 0) :
+    (∀ k, (scanTags p 0).count k = if k < imgs.length then 1 else 0) ∧
+    ∃ l, resolveTags imgs (scanTags p 0) = some l ∧ l.length = (scanTags p 0).length := by
+  obtain ⟨hg, hexec⟩ := templ_ok_exact h
+  have hsys := (system_kept_fixed hg hv).1
+  have hsysmem : ∀ m ∈ sys, m ∈ msgs := by
+    intro m hm
+    rw [hsys] at hm
+    exact List.mem_of_mem_take (List.mem_filter.mp hm).1
+  have hretclean : ∀ m' ∈ ret, cleanPieces m'.content = true := by
+    intro m' hm'
+    obtain ⟨m, hm, hs⟩ := AllSame.mem_right (retained_is_suffix_in_order hg) m' hm'
+    rw [cleanPieces_strip, hs.text, ← cleanPieces_strip]
+    exact hclean m (List.mem_of_mem_drop hm)
+  let L : List PMsg := (sys ++ ret).map (fun m : Msg => ((m.role, m.content) : PMsg))
+  have hall : ∀ m ∈ L, cleanPieces m.2 = true := by
+    intro m hm
+    obtain ⟨x, hx, rfl⟩ := List.mem_map.mp hm
+    rcases List.mem_append.mp hx with h1 | h1
+    · exact hclean x (hsysmem x h1)
+    · exact hretclean x h1
+  obtain ⟨p', hp', hscan⟩ := header_scan tv L tools hall
+  have emap : L.map rp = (sys ++ ret).map toRMsg := by
+    simp only [L]; rw [List.map_map]; rfl
+  rw [emap, hexec] at hp'
+  injection hp' with hp'
+  subst hp'
+  obtain ⟨_, hid, hcount⟩ := images_once_indexed hg hno
+  have hcnt : ∀ k, (scanTags p 0).count k = if k < imgs.length then 1 else 0 := by
+    intro k
+    rw [hscan, List.count_append, count_partition k L]
+    have : L.flatMap (fun m => tagsOf m.2) = (sys ++ ret).flatMap (fun m => tagsOf m.content) := by
+      simp only [L]; rw [List.flatMap_map]
+    rw [this, ← flatMap_tags (fun m : Msg => m.content), count_tagsOf, List.flatMap_append, countTag_append,
+      countTag_flatMap_zero k sys (fun m hm => hno m (hsysmem m hm) k), hcount k]
+    simp
+  refine ⟨hcnt, resolveTags_all imgs _ (fun k hk => ?_)⟩
+  have hpos : 0 < (scanTags p 0).count k := List.count_pos_iff.mpr hk
+  rw [hcnt k] at hpos
+  have hlt : k < imgs.length := by
+    by_cases hlt : k < imgs.length
+    · exact hlt
+    · simp [hlt] at hpos
+  exact ⟨_, resolveTag_of_IdsOk imgs hid k hlt⟩
+
+
+/-- non-vacuity of `prompt_tags_header_partial`: `nvconv` through the header template, everything kept: the runner
+    reads the tags 0, 2, 1; context length 30 (bytes): only the latest message, tags 1, 0 -/
+example :
+    scanOf (chatPromptT ⟨true, false, 0, 1000⟩ ⟨2, true⟩ tHeader 1 nvconv) = [0, 2, 1] ∧
+    cutOf (chatPromptT ⟨true, false, 0, 30⟩ ⟨2, true⟩ tHeader 1 nvconv) = some 3 ∧
+    scanOf (chatPromptT ⟨true, false, 0, 30⟩ ⟨2, true⟩ tHeader 1 nvconv) = [1, 0] := by decide
+
 end OllamaVerif.C19
